@@ -1,4 +1,5 @@
 import PvModel.Props.C17
+import PvModel.Props.C17Label
 #print axioms Pv.C17_label_values
 #print axioms Pv.C17_map_sum
 #print axioms Pv.C17_plus_bounds
@@ -13,3 +14,4 @@ import PvModel.Props.C17
 #print axioms Pv.C17_label_partition
 #print axioms Pv.C17_distinctfd_no_solution_lost
 #print axioms Pv.C17_distinctfd_fail_means_unsat
+#print axioms Pv.C17_label_exactly_once
